@@ -271,7 +271,7 @@ func ExpectedPrec0(s Step, before []h.Snap) (allowed []uint, ok bool) {
 	case "setfloat64":
 		return []uint{17}, true
 	case "setfloat":
-		return []uint{uint(math.Ceil(float64(s.FP) * (math.Ln2 / math.Ln10)))}, true
+		return []uint{uint(h.CeilLog10_2(uint64(s.FP)))}, true
 	case "setrat":
 		r := new(big.Rat).SetFrac(bigOf(s.I), bigOf(s.Den))
 		if r.IsInt() {
